@@ -158,6 +158,46 @@ func exprs() []expr {
 			}
 			return pend()
 		}},
+		// the function's own future can fail or stay pending after a successful source: the result is that future's
+		// result, and fn is not asked a second time about a failure that is not the source's
+		{"TransformFails", func(a, b fp.Future[int], ex []fp.Executor) fp.Future[int] {
+			return future.Transform(a, func(t fp.Try[int]) fp.Try[int] {
+				if t.IsSuccess() {
+					if zz.UFBool("reject", t.Get()) {
+						return fp.Failure[int](eH)
+					}
+					return fp.Success(f1(t.Get()))
+				}
+				return fp.Success(7)
+			}, ex...)
+		}, func(a, b out) out {
+			switch a.st {
+			case success:
+				if zz.UFBool("reject", a.v) {
+					return fail(eH)
+				}
+				return ok(f1(a.v))
+			case failure:
+				return ok(7)
+			}
+			return pend()
+		}},
+		{"TransformWithBoth", func(a, b fp.Future[int], ex []fp.Executor) fp.Future[int] {
+			return future.TransformWith(a, func(t fp.Try[int]) fp.Future[int] {
+				if t.IsSuccess() {
+					return b
+				}
+				return future.Successful(9)
+			}, ex...)
+		}, func(a, b out) out {
+			switch a.st {
+			case success:
+				return b
+			case failure:
+				return ok(9)
+			}
+			return pend()
+		}},
 		{"Recover", func(a, b fp.Future[int], ex []fp.Executor) fp.Future[int] {
 			return a.Recover(func(e error) int {
 				if e == eA {
@@ -343,37 +383,39 @@ func run(name string, goexec bool) {
 	sameOut(d, e.ref(oa, ob), name)
 }
 
-func VH_c06_Map()             { run("Map", false) }
-func VH_c06_MethodMap()       { run("MethodMap", false) }
-func VH_c06_FlatMap()         { run("FlatMap", false) }
-func VH_c06_MethodFlatMap()   { run("MethodFlatMap", false) }
-func VH_c06_Flatten()         { run("Flatten", false) }
-func VH_c06_Map2()            { run("Map2", false) }
-func VH_c06_LiftA2()          { run("LiftA2", false) }
-func VH_c06_LiftA3()          { run("LiftA3", false) }
-func VH_c06_LiftM2()          { run("LiftM2", false) }
-func VH_c06_Zip()             { run("Zip", false) }
-func VH_c06_Zip3()            { run("Zip3", false) }
-func VH_c06_Ap()              { run("Ap", false) }
-func VH_c06_ApFunc()          { run("ApFunc", false) }
-func VH_c06_Sequence()        { run("Sequence", false) }
-func VH_c06_TraverseSeq()     { run("TraverseSeq", false) }
-func VH_c06_Transform()       { run("Transform", false) }
-func VH_c06_TransformWith()   { run("TransformWith", false) }
-func VH_c06_Recover()         { run("Recover", false) }
-func VH_c06_RecoverWith()     { run("RecoverWith", false) }
-func VH_c06_RecoverCase()     { run("RecoverCase", false) }
-func VH_c06_RecoverCaseWith() { run("RecoverCaseWith", false) }
-func VH_c06_Or()              { run("Or", false) }
-func VH_c06_OrFuture()        { run("OrFuture", false) }
-func VH_c06_Failed()          { run("Failed", false) }
-func VH_c06_Method1_FlapMap() { run("Method1_FlapMap", false) }
-func VH_c06_Compose()         { run("Compose", false) }
-func VH_c06_Applicative2()    { run("Applicative2", false) }
-func VH_c06_Replace_With()    { run("Replace_With", false) }
-func VH_c06_goexec_Map()      { run("Map", true) }
-func VH_c06_goexec_FlatMap()  { run("FlatMap", true) }
-func VH_c06_goexec_Map2()     { run("Map2", true) }
-func VH_c06_goexec_Sequence() { run("Sequence", true) }
-func VH_c06_goexec_Recover()  { run("Recover", true) }
-func VH_c06_goexec_Or()       { run("Or", true) }
+func VH_c06_Map()               { run("Map", false) }
+func VH_c06_MethodMap()         { run("MethodMap", false) }
+func VH_c06_FlatMap()           { run("FlatMap", false) }
+func VH_c06_MethodFlatMap()     { run("MethodFlatMap", false) }
+func VH_c06_Flatten()           { run("Flatten", false) }
+func VH_c06_Map2()              { run("Map2", false) }
+func VH_c06_LiftA2()            { run("LiftA2", false) }
+func VH_c06_LiftA3()            { run("LiftA3", false) }
+func VH_c06_LiftM2()            { run("LiftM2", false) }
+func VH_c06_Zip()               { run("Zip", false) }
+func VH_c06_Zip3()              { run("Zip3", false) }
+func VH_c06_Ap()                { run("Ap", false) }
+func VH_c06_ApFunc()            { run("ApFunc", false) }
+func VH_c06_Sequence()          { run("Sequence", false) }
+func VH_c06_TraverseSeq()       { run("TraverseSeq", false) }
+func VH_c06_Transform()         { run("Transform", false) }
+func VH_c06_TransformWith()     { run("TransformWith", false) }
+func VH_c06_TransformWithBoth() { run("TransformWithBoth", false) }
+func VH_c06_TransformFails()    { run("TransformFails", false) }
+func VH_c06_Recover()           { run("Recover", false) }
+func VH_c06_RecoverWith()       { run("RecoverWith", false) }
+func VH_c06_RecoverCase()       { run("RecoverCase", false) }
+func VH_c06_RecoverCaseWith()   { run("RecoverCaseWith", false) }
+func VH_c06_Or()                { run("Or", false) }
+func VH_c06_OrFuture()          { run("OrFuture", false) }
+func VH_c06_Failed()            { run("Failed", false) }
+func VH_c06_Method1_FlapMap()   { run("Method1_FlapMap", false) }
+func VH_c06_Compose()           { run("Compose", false) }
+func VH_c06_Applicative2()      { run("Applicative2", false) }
+func VH_c06_Replace_With()      { run("Replace_With", false) }
+func VH_c06_goexec_Map()        { run("Map", true) }
+func VH_c06_goexec_FlatMap()    { run("FlatMap", true) }
+func VH_c06_goexec_Map2()       { run("Map2", true) }
+func VH_c06_goexec_Sequence()   { run("Sequence", true) }
+func VH_c06_goexec_Recover()    { run("Recover", true) }
+func VH_c06_goexec_Or()         { run("Or", true) }
